@@ -7,6 +7,6 @@ s=open('/verif/DESIGN.md').read()
 t=open('/tmp/seedtable.md').read()
 a=s.index('<!-- SEEDED-TABLE-BEGIN -->')+len('<!-- SEEDED-TABLE-BEGIN -->')
 b=s.index('<!-- SEEDED-TABLE-END -->')
-s=s[:a]+"\n\n('first run' = the check as it was when the seed arrived; 'final checks' = tools/seedregress.sh against the checks as committed; r2 = second round, whose authors were told what the first round had produced.)\n\n"+t+"\n"+s[b:]
+s=s[:a]+"\n\n('first run' = the check as it was when the seed arrived; 'final checks' = tools/seedregress.sh against the checks as committed; r2, r3 = second and third round, whose authors were told what earlier rounds had produced.)\n\n"+t+"\n"+s[b:]
 open('/verif/DESIGN.md','w').write(s)
 P
